@@ -32,6 +32,13 @@ import (
 )
 
 type Cfg struct {
+	// Single: instances that start with one (valid) snapshot only. Republish: after its newest snapshot was cleaned,
+	// instance c may publish again (an instance that disappears from the bucket and returns).
+	// Script: choices that are taken as soon as they are offered, in this order, at no cost: the exploration proper
+	// starts from the state they lead to (a non-initial state that would cost several deviations to reach).
+	Single          []string `json:"single"`
+	Republish       bool     `json:"republish"`
+	Script          []string `json:"script"`
 	DownloadLimit   int      `json:"dl"`
 	DecompressLimit int      `json:"dc"`
 	Instances       []string `json:"instances"` // other instances with snapshots in the bucket at start
@@ -151,6 +158,14 @@ func Run(cfg Cfg, ctx *explore.Ctx) Result {
 			put(in, 1, true)
 			continue
 		}
+		single := false
+		for _, sname := range cfg.Single {
+			single = single || sname == in
+		}
+		if single {
+			put(in, 2, false)
+			continue
+		}
 		put(in, 1, isCorrupt(in, "older"))
 		put(in, 2, isCorrupt(in, "newest"))
 	}
@@ -186,7 +201,7 @@ func Run(cfg Cfg, ctx *explore.Ctx) Result {
 		return t
 	}
 	// token acquisition must be a scheduling point: goroutines woken in the same step would otherwise race for a token
-	s.ParkPoints = map[string]bool{"dl.publish.lock": true, "dl.closeOverwritten": true, "recv.next.lock": true, "climit.acquire.recv": true}
+	s.ParkPoints = map[string]bool{"dl.publish.lock": true, "dl.closeOverwritten": true, "recv.next.lock": true, "climit.acquire.recv": true, "dl.exit": true}
 	if cfg.FinePoints {
 		s.ParkPoints["dl.loadonce"] = true
 	}
@@ -219,9 +234,11 @@ func Run(cfg Cfg, ctx *explore.Ctx) Result {
 	consumerDone := false
 	stopConsumer := false
 	retried := map[string]bool{} // downloader threads whose retry timer fired since the last storage poll
-	produced, polledAt := 0, -1 // snapshots handed to the receiver / value of produced at the consumer's last empty poll
+	produced, polledAt := 0, -1  // snapshots handed to the receiver / value of produced at the consumer's last empty poll
 	polls := 0
-	published, vanished := false, false
+	published, vanished, republished := false, false, false
+	progress := true // something other than the receiver's own poll happened since the last storage poll
+	script := append([]string{}, cfg.Script...)
 	maxDL, maxDC := 0.0, 0.0
 
 	s.Policy = func(s *sched.Sched, parked []*sched.P) []sched.Choice {
@@ -238,8 +255,13 @@ func Run(cfg Cfg, ctx *explore.Ctx) Result {
 		}
 		var pool []*sched.P
 		for _, p := range parked {
-			if p.Point == "sleep.storagepoll" && polls >= cfg.Polls {
-				continue // poll quota used up: the receiver stays asleep
+			if p.Point == "sleep.storagepoll" && (polls >= cfg.Polls || len(script) > 0) {
+				continue // poll quota used up (or the scripted prefix is not done yet): the receiver stays asleep
+			}
+			if p.Point == "sleep.storagepoll" && cfg.Republish && polls > 0 && !progress {
+				// a second poll right after a poll, with the same bucket and nothing else having run in between, sees
+				// exactly what the first one saw: same future, not worth a poll of the quota
+				continue
 			}
 			if p.Point == "sleep.retry" && retried[p.Thread] {
 				continue // timers are fair: a storage poll (1 s) fires before the same retry timer (5 s) fires again
@@ -268,6 +290,12 @@ func Run(cfg Cfg, ctx *explore.Ctx) Result {
 		}
 		out = kept
 		if len(out) > 0 {
+			if cfg.Republish && vanished && !republished {
+				out = append(out, sched.Choice{Label: "c-publishes-again", Cost: 1, Act: &sched.Action{Do: func() {
+					republished = true
+					put("c", 4, false)
+				}}})
+			}
 			if cfg.Publish && !published {
 				out = append(out, sched.Choice{Label: "publish-newer-b", Cost: 1, Act: &sched.Action{Do: func() {
 					published = true
@@ -288,6 +316,19 @@ func Run(cfg Cfg, ctx *explore.Ctx) Result {
 						delete(decodable, newest)
 					}
 				}}})
+			}
+		}
+		if len(script) > 0 {
+			// scripted prefix: take the scripted choice as soon as it is offered; until then only the default
+			for _, c := range out {
+				if c.Label == script[0] {
+					script = script[1:]
+					c.Cost = 0
+					return []sched.Choice{c}
+				}
+			}
+			if len(out) > 1 {
+				out = out[:1]
 			}
 		}
 		return out
@@ -334,6 +375,9 @@ func Run(cfg Cfg, ctx *explore.Ctx) Result {
 			if last == "storage-poll-fires" {
 				polls++
 				retried = map[string]bool{}
+				progress = false
+			} else if !strings.HasPrefix(last, "receiver-main@") {
+				progress = true // another goroutine ran, or the bucket changed
 			}
 			if strings.Contains(last, "@sleep.retry") {
 				retried[strings.SplitN(last, "@", 2)[0]] = true
